@@ -114,7 +114,14 @@ var c15Scratch []byte
 
 var c15Plens = []int{0, 8, 16, 6, 3, 4096, 65535}
 
-var c15Hmodes = []string{"hdrlen-consistent", "hdrlen+8", "hdrlen-8", "hdrlen+4", "hdrlen=15"}
+var c15Hmodes = []string{"hdrlen-consistent", "hdrlen+8", "hdrlen-8", "hdrlen+4", "hdrlen=15",
+	"hdrlen+1", "hdrlen+2", "hdrlen+7", "hdrlen+9"}
+
+// c15Hexcess: for the modes in which the header-length field exceeds the TLV area by a number of bytes that
+// is not a multiple of 8, that excess; the datagram then carries as many filler bytes (0xee) between the
+// TLVs and the payload, so that the decoder finds every remainder 1..7 (and 8+1) of a TLV where it expects
+// the next one.
+var c15Hexcess = map[int]int{3: 4, 5: 1, 6: 2, 7: 7, 8: 9}
 
 const (
 	c15Src   = uint32(0x01020304)
@@ -583,11 +590,11 @@ func c15DecodeBody(r *vexp.Runner, x *vexp.X, menu []c15TLV, first, hm, ntlv int
 		hl += 8
 	case 2:
 		hl -= 8
-	case 3:
-		hl += 4
-		filler = 4
 	case 4:
 		hl = 15
+	default:
+		filler = c15Hexcess[hm]
+		hl += filler
 	}
 	n := 16 + tl + filler + supply
 	// one scratch buffer per process: the decoder copies what it keeps (checked by reading ReadPacket/parseTLV)
@@ -984,7 +991,7 @@ func TestVerifC15(t *testing.T) {
 		maxTLV, fmtLen = 4, 5
 		nss = append(nss, c15NS{"n4", 4}, c15NS{"n5", 5}, c15NS{"n6", 6}, c15NS{"n7", 7}, c15NS{"n100", 100}, c15NS{"n1000", 1000})
 	}
-	r.SetBound(fmt.Sprintf("(A) every datagram = fixed header {header-length field consistent|+8|-8|+4|15} x {magic right|wrong} x {version 1|255} x "+
+	r.SetBound(fmt.Sprintf("(A) every datagram = fixed header {header-length field consistent|+8|-8|15, and +4|+1|+2|+7|+9 with as many filler bytes before the payload} x {magic right|wrong} x {version 1|255} x "+
 		"payload-length field %v x payload bytes {exact|one short|eight extra} ++ every sequence of 0..%d TLVs from a %d-entry menu of valid and malformed encodings, "+
 		"decoded by ReadPacket and ReadPacketPlusPad(stride 8, 64), all accessors called on every success; every format string of 0..%d characters over %q x shape {[1]|[2]|none} x payload {16|0|8|6}; every truncation of two encoder-made datagrams. "+
 		"(B) NewPacket x [SetTimestamp before|after the data|set-then-reset] x [NewData]: int16|int32|int64 x %d sample counts (none, 0..8, largest fitting, one more, 64KiB+4) x dims %v "+
